@@ -159,6 +159,12 @@ def gen_case(rng, index, tier):
                                      'can%d_%d' % (index, i), volume_rel=tv)
             e['trash_visible'] = top + '/%d' % uid
             canaries.append(e)
+        if rng.random() < 0.5:
+            # ... and payloads without .trashinfo (orphans): they are as much
+            # somebody else's as the rest of an insecure directory
+            L.add({'p': udir + '/files/orphan-%d' % index, 't': 'f', 'c': 'orphan'})
+            L.add({'p': udir + '/files/orphan-dir-%d' % index, 't': 'd'})
+            L.add({'p': udir + '/files/orphan-dir-%d/inner' % index, 't': 'f', 'c': 'x'})
     # a normal entry in .Trash-$uid of the same volume and one in the home trash
     alt = L.vol_path(tv, '.Trash-%d' % uid)
     normal = []
